@@ -38,9 +38,9 @@ func (h *verifC19LogLimit) Enabled(_ context.Context, l slog.Level) bool { retur
 func (h *verifC19LogLimit) Handle(context.Context, slog.Record) error {
 	h.mu.Lock()
 	h.n++
-	n := h.n
+	n, max := h.n, h.max
 	h.mu.Unlock()
-	if n > h.max {
+	if n > max {
 		panic(VerifC19Livelock{Errors: n})
 	}
 	return nil
@@ -69,6 +69,15 @@ func VerifC19NewBalancer(status resources.StatusResource, config resources.Clust
 }
 
 func (v *VerifC19Balancer) Close() { v.r.cancel() }
+
+// SetLivelockThreshold: number of error records after which a round is declared never-ending
+// (default 60). A terminating round logs at most one error per shard on a deleted node plus one;
+// an error inside balanceHighestNode is retried without any state change, i.e. forever.
+func (v *VerifC19Balancer) SetLivelockThreshold(n int) {
+	v.lim.mu.Lock()
+	v.lim.max = n
+	v.lim.mu.Unlock()
+}
 
 // Reset makes the balancer as good as new (no quarantined node, error-log counter at zero) and
 // points it at the given resources / load-ratio algorithm.
